@@ -45,7 +45,7 @@ def run(rep, prog, tier):
         outs = Interp(prog, sc).run(it)
         rep.analysed['paths'] += len(outs)
         for s in outs:
-            ys = alpha('\x00'.join(each_of(render(y)) for y in s.yields)).split('\x00') if s.yields else []
+            ys = alpha('\x00'.join(each_of(render(y), i) for i, y in enumerate(s.yields))).split('\x00') if s.yields else []
             if kind != 'literal':
                 rep.check(ys in allowed, 'C20.1', 'PGPMessage.__iter__', '%s: %s' % (kind, ys),
                           {'cleartext': 'a cleartext message is followed by its signatures only',
@@ -199,7 +199,9 @@ def run(rep, prog, tier):
         fields = [(r.target, r.width) for r in reads if r.kind != 'delegate']
         flag = [r.text for r in reads if r.target == '%s.nested' % me]
         want = [('%s.%s' % (me, a), w) for a, w in (('sigtype', '1'), ('halg', '1'), ('pubalg', '1'), ('signer', '8'), ('nested', '1'))]
-        rep.check(fields == want and not problems and flag and flag[0] in ('(%s[0] == 1)' % B, '(%s[0] != 0)' % B, 'bool(%s[0])' % B), 'C20.6', 'OnePassSignatureV3.parse',
+        # the flag is the truth of the last octet: `octet == 1` (either operand order), `octet != 0`, bool(octet) - as boolean functions
+        flag_ok = bool(flag) and any(same(skeleton(flag[0]), skeleton(t % B)) for t in ('%s[0] == 1', '%s[0] != 0', 'bool(%s[0])'))
+        rep.check(fields == want and not problems and flag_ok, 'C20.6', 'OnePassSignatureV3.parse',
                   'reads %s flag %s' % (fields, flag), 'the reader takes the fields in the same order', where=ops_cls.where, expected=want, found=fields)
     lit = prog.cls('pgpy.packet.packets', 'LiteralData')
     lp = lit.methods['parse']
@@ -264,12 +266,12 @@ def run(rep, prog, tier):
             break
 
 
-def each_of(y):
-    """A re-yielded iterable (`yield from X`, rendered '*X') is the loop yielding its elements."""
+def each_of(y, k=0):
+    """A re-yielded iterable (`yield from X`, rendered '*X') is the loop yielding its elements (its own bound variable)."""
     if y.startswith('*EACH('):
         return y[1:]
     if y.startswith('*'):
-        return 'EACH($99 in %s;$99)' % y[1:]
+        return 'EACH($9%03d in %s;$9%03d)' % (k, y[1:], k)
     return y
 
 
